@@ -784,6 +784,8 @@ def x7s_string_shims(text, log):
     sub(_RECV + r"\s*\.rsplit_once\(\s*(?=')", lambda m: "vx_rsplit_once_char(%s, " % m.group(1), "vx_rsplit_once_char")
     sub(_RECV + r"\s*\.split_once\(\s*(?=')", lambda m: "vx_split_once_char(%s, " % m.group(1), "vx_split_once_char")
     sub(_RECV + r"\s*\.split\(\s*(?=')", lambda m: "vx_split_char(%s, " % m.group(1), "vx_split_char")
+    sub(_RECV + r"\s*\.trim_start_matches\(\s*(?=')", lambda m: "vx_trim_start_char(%s, " % m.group(1), "vx_trim_start_char")
+    sub(_RECV + r"\s*\.trim_end_matches\(\s*(?=')", lambda m: "vx_trim_end_char(%s, " % m.group(1), "vx_trim_end_char")
     sub(_RECV + r"\s*\.parse::<(i16|i32|u16)>\(\)\s*\.is_ok\(\)", lambda m: "vx_parse_ok_%s(%s)" % (m.group(2), m.group(1)), "vx_parse_ok")
     sub(r"&([a-z_][a-z0-9_]*)\[([a-z0-9_]+)\.\.([a-z0-9_]+)\]", lambda m: "vx_str_range(%s, %s, %s)" % (m.group(1), m.group(2), m.group(3)), "vx_str_range")
     sub(r"\bUuid::parse_str\(((?:[^()]|\([^()]*\))*)\)\s*\.is_ok\(\)", lambda m: "vx_uuid_parse_ok(%s)" % m.group(1), "vx_uuid_parse_ok")
